@@ -506,7 +506,7 @@ def rand_quals_step(r, sep=":"):
     if c == 21:
         return "clear" if r.chance(1, 4) else "len"
     if c == 22:
-        return r.pick(["iter", "riter", "len", "ends"])
+        return r.pick(["iter", "riter", "len", "ends", "tgck"])
     if c == 23:
         return J([r.pick(["imut", "rimut"]), v()])
     if c == 24:
@@ -514,7 +514,7 @@ def rand_quals_step(r, sep=":"):
         items = []
         for _ in range(n):
             items += [k(), v()]
-        return J(["tfi"] + items)
+        return J([r.pick(["tfi", "tfi", "cf"])] + items)
     if c == 25:
         return J([r.pick(["eqk", "cmpk"]), str(r.below(3)), hx(r.pick(KEY_UNIVERSE + ["ǅ", KELVIN, "KEY", "İ"]))])
     if c == 26:
@@ -784,6 +784,21 @@ def st_shape(ctx, n, label="shape"):
             c = rand_builder_case(r, "S", 4)
             req = c["req"].split(" ", 2)[2]
             out.append(case("shape %d build %s" % (bits, req), "shape-build", bits=bits))
+    return out
+
+
+def st_fmtlim(ctx, n, shapes, label="fmtlim"):
+    """format into a sink that fails beyond a small capacity, then format normally (state left behind by a failed
+    write must not show); interleaved with ordinary parse requests in the same process"""
+    r = ctx.rng(label)
+    base = [c for c in st_classes(ctx, shapes, label + "-cls")]
+    out = []
+    step = max(1, len(base) // max(1, n))
+    for c in base[::step]:
+        cap = r.pick([0, 1, 4, 5, 7, 8, 12, 16, 24, 32, 48, 64, 200, 5000])
+        t = c["req"].split(" ")
+        out.append(case("fmtlim %s %d %s" % (t[1], cap, t[2]), "fmtlim", s=c["s"], shape=c["shape"]))
+        out.append(case(c["req"], "fmtlim-after", s=c["s"], shape=c["shape"]))
     return out
 
 
